@@ -26,6 +26,8 @@ from .. import coqio as q
 #   prog : {"skip": None | [where, r], "xfail": bool, "setup": {"tok","acts","up"}, "body": {"tok","acts"},
 #           "teardown": {"tok","acts","up"}, "handlers": [[cls, outcome], ...]}
 #          up: "first" | "last" (where the upcall is made) | "none"
+#   runner : None | [factory, via]            the RunTest factory of the case and how it is installed (coq/Model/Run.v
+#          `factory`, `via`; FACTORIES, VIAS below); None = nothing installed (TestCase.run_tests_with is RunTest)
 # ----------------------------------------------------------------------------
 BUILTIN = ["BaseException", "Exception", "Skip", "Fail", "Mismatch", "XFail", "Ux", "Multi", "SetupError",
            "ValueError", "Kbd", "SysExit", "GenExit"]
@@ -335,12 +337,142 @@ def _outcome_handler(o):
     return handler
 
 
-def build(env, prog):
+# RunTest factories (coq/Model/Run.v `factory`): every one of them ends up constructing a plain testtools.RunTest
+COQ_FACTORY = {"RunTest": "RT_RunTest", "sub_explicit": "RT_SubExplicit", "sub_star": "RT_SubStar",
+               "sub_kw_star": "RT_SubKwStar", "fn_explicit": "RT_FnExplicit", "fn_star": "RT_FnStar",
+               "fn_kwonly": "RT_FnKwOnly", "fn_kwargs": "RT_FnKwargs", "partial": "RT_Partial",
+               "callable": "RT_Callable", "bound_method": "RT_BoundMethod", "old_fn": "RT_OldFn",
+               "old_sub": "RT_OldSub", "old_fn_kw": "RT_OldFnKw", "fn_renamed": "RT_FnRenamed"}
+COQ_VIA = {"class": "VClass", "ctor": "VCtor", "deco": "VDeco", "deco_kw": "VDecoKw"}
+FACTORIES = list(COQ_FACTORY)
+OLD_FACTORIES = ("old_fn", "old_sub", "old_fn_kw", "fn_renamed")    # cannot be called with last_resort=
+KW_FACTORIES = ("sub_kw_star", "old_fn_kw")                          # take the extra keyword of @run_test_with(f, tag=3)
+VIAS = list(COQ_VIA)
+
+
+def runners():
+    """every [factory, via] the code supports (the extra keyword arguments of run_test_with only for factories that
+    take them)"""
+    return [[f, v] for f in FACTORIES for v in VIAS if v != "deco_kw" or f in KW_FACTORIES]
+
+
+def configured(cases, rng, n):
+    """n of the given cases again, each on a test case configured with a RunTest factory of its own (every
+    [factory, via] in turn).  For C02, C03, C05, whose Gallina input has no configuration: by `factory_irrelevant`
+    (coq/Proof/RunExtra.v) the model's run of such a case is the run with the default RunTest."""
+    import random
+    r2 = random.Random(rng.random())
+    rns = runners()
+    pool = [c for c in cases if "runner" not in c]
+    picked = r2.sample(pool, min(n, len(pool)))
+    return [dict(c, runner=rns[k % len(rns)]) for k, c in enumerate(picked)]
+
+
+def shrink_configured(case, shrunk):
+    """the shrinker of a property whose cases may carry "runner": keep it on the smaller cases, then try without"""
+    rn = case.get("runner")
+    for c in shrunk:
+        yield dict(c, runner=rn) if rn else c
+    if rn:
+        c = dict(case)
+        del c["runner"]
+        yield c
+        for r in shrink_runner(rn):
+            if r:
+                yield dict(case, runner=r)
+
+
+def runner_distribution(cases):
+    d = {}
+    for c in cases:
+        rn = c.get("runner") or ["RunTest (default)", "not installed"]
+        key = "%s via %s" % (rn[0], rn[1]) if c.get("runner") else "default"
+        d[key] = d.get(key, 0) + 1
+    return d
+
+
+def make_factory(name):
+    """the RunTest factory `name`, built from the RunTest of the tree under test"""
+    import functools
+    from testtools import RunTest
+    if name == "RunTest":
+        return RunTest
+    if name == "sub_explicit":
+        class ExplicitRunTest(RunTest):
+            def __init__(self, case, handlers=None, last_resort=None):
+                super().__init__(case, handlers, last_resort)
+        return ExplicitRunTest
+    if name == "sub_star":
+        class ForwardingRunTest(RunTest):
+            def __init__(self, case, *args, **kwargs):
+                super().__init__(case, *args, **kwargs)
+                self.started = 0
+        return ForwardingRunTest
+    if name == "sub_kw_star":
+        class TaggedRunTest(RunTest):
+            def __init__(self, case, *args, tag=0, **kwargs):
+                super().__init__(case, *args, **kwargs)
+                self.tag = tag
+        return TaggedRunTest
+    if name == "fn_explicit":
+        def factory(case, handlers=None, last_resort=None):
+            return RunTest(case, handlers, last_resort)
+        return factory
+    if name == "fn_star":
+        def factory(case, *args, **kwargs):
+            return RunTest(case, *args, **kwargs)
+        return factory
+    if name == "fn_kwonly":
+        def factory(case, handlers=None, *, last_resort=None):
+            return RunTest(case, handlers, last_resort=last_resort)
+        return factory
+    if name == "fn_kwargs":
+        def factory(case, handlers=None, **kwargs):
+            return RunTest(case, handlers, **kwargs)
+        return factory
+    if name == "partial":
+        return functools.partial(RunTest)
+    if name == "callable":
+        class Maker:
+            def __call__(self, case, handlers=None, last_resort=None):
+                return RunTest(case, handlers, last_resort)
+        return Maker()
+    if name == "bound_method":
+        class Maker:
+            def make(self, case, handlers=None, last_resort=None):
+                return RunTest(case, handlers, last_resort)
+        return Maker().make
+    # written for the API before last_resort existed: TestCase.run / run_test_with call them again without it
+    # and install the handler of last resort on the runner that comes back
+    if name == "old_fn":
+        def factory(case, handlers=None):
+            return RunTest(case, handlers)
+        return factory
+    if name == "old_sub":
+        class OldRunTest(RunTest):
+            def __init__(self, case, handlers=None):
+                super().__init__(case, handlers)
+        return OldRunTest
+    if name == "old_fn_kw":
+        def factory(case, handlers=None, tag=0):
+            return RunTest(case, handlers)
+        return factory
+    if name == "fn_renamed":
+        def factory(case, handlers=None, fallback=None):
+            return RunTest(case, handlers, fallback)
+        return factory
+    raise AssertionError(name)
+
+
+def build(env, prog, runner=None):
     """the TestCase instance of a program.  The stages follow env.prog, which a history of runs on the one
     instance changes from run to run; decorators and the handlers present before the first run are prog's."""
+    import inspect
     import unittest
     import testtools
     env.prog = prog
+    factory = make_factory(runner[0]) if runner else None
+    via = runner[1] if runner else None
 
     class T(testtools.TestCase):
         def setUp(self):
@@ -374,10 +506,17 @@ def build(env, prog):
             test_x = unittest.skip("r%d" % prog["skip"][1])(test_x)
         if prog["skip"] and prog["skip"][0] == "skipIf":
             test_x = testtools.skipIf(True, "r%d" % prog["skip"][1])(test_x)
+        if via == "deco":
+            test_x = testtools.run_test_with(factory)(test_x)
+        if via == "deco_kw":
+            test_x = testtools.run_test_with(factory, tag=3)(test_x)
 
+    if via == "class":
+        # a plain function would be bound like a method when read through the instance
+        T.run_tests_with = staticmethod(factory) if inspect.isfunction(factory) else factory
     if prog["skip"] and prog["skip"][0] == "class":
         T = testtools.skip("r%d" % prog["skip"][1])(T)
-    case = T("test_x")
+    case = T("test_x", runTest=factory) if via == "ctor" else T("test_x")
     case.exception_handlers[0:0] = [(env.cls(c), _outcome_handler(o)) for c, o in prog["handlers"]]
     return case
 
@@ -487,20 +626,20 @@ def raised_kind(e):
     return "base"
 
 
-def run_program(prog, flavour="FExtended", attrs0=(), runs=1):
+def run_program(prog, flavour="FExtended", attrs0=(), runs=1, runner=None):
     """Runs the program `runs` times on one TestCase instance; one observation dict per run."""
-    return run_history([prog] * runs, flavour, attrs0)
+    return run_history([prog] * runs, flavour, attrs0, runner)
 
 
-def run_history(progs, flavour="FExtended", attrs0=()):
-    """One TestCase instance (class, decorators and initial handlers of progs[0]) run len(progs) times, its
-    stages following progs[k] in run k; one observation dict per run."""
+def run_history(progs, flavour="FExtended", attrs0=(), runner=None):
+    """One TestCase instance (class, decorators and initial handlers of progs[0]; RunTest factory `runner`) run
+    len(progs) times, its stages following progs[k] in run k; one observation dict per run."""
     import testtools
     assert testtools
     env = _Env()
     for a, v in attrs0:
         env.set_initial(a, v)
-    case = build(env, progs[0])
+    case = build(env, progs[0], runner)
     out = []
     for prog in progs:
         env.prog = prog
@@ -599,6 +738,24 @@ def t_prog(p):
         ("p_up_teardown", q.boolean(p["teardown"]["up"] != "none")),
         ("p_handlers", q.lst([q.pair(t_cls(c), COQ_OUT[o]) for c, o in p["handlers"]])),
     ])
+
+
+def t_runner(r):
+    if not r:
+        return "default_runner"
+    return q.record([("r_factory", COQ_FACTORY[r[0]]), ("r_via", COQ_VIA[r[1]])])
+
+
+def shrink_runner(r):
+    """simpler configurations: nothing installed; installed as the class attribute; a plainer factory of the same kind"""
+    if not r:
+        return
+    yield None
+    if r[1] != "class":
+        yield [r[0], "class"]
+    plain = "old_fn" if r[0] in OLD_FACTORIES else "fn_star" if "star" in r[0] or "kwargs" in r[0] else "fn_explicit"
+    if r[0] != plain and r[1] != "deco_kw":
+        yield [plain, r[1]]
 
 
 def t_attrs(l):
